@@ -464,6 +464,39 @@ def expand_quantified_returns(tree: ast.Module) -> int:
             i = 0
             while i < len(block):
                 st = block[i]
+                # `if not all(P for x in it): <… return / raise>` and `if any(P for x in it): <… return / raise>`:
+                # the body runs at most once (it leaves the function), so it can move into the early-exit loop
+                if isinstance(st, ast.If) and not st.orelse and st.body and isinstance(st.body[-1], (ast.Return, ast.Raise)):
+                    t = st.test
+                    q = None
+                    if isinstance(t, ast.UnaryOp) and isinstance(t.op, ast.Not) and _quantifier(t.operand) and _quantifier(t.operand)[0] == "all":
+                        q = _quantifier(t.operand)
+                    elif _quantifier(t) and _quantifier(t)[0] == "any":
+                        q = _quantifier(t)
+                    if q is not None:
+                        kind, elt, gen = q
+                        bound = {x.id for x in ast.walk(gen.target) if isinstance(x, ast.Name)}
+                        fn_names = set()
+                        for other in ast.walk(tree):
+                            if isinstance(other, (ast.FunctionDef, ast.AsyncFunctionDef)) and any(y is st for y in ast.walk(other)):
+                                inside = {id(y) for y in ast.walk(st.test)}
+                                fn_names = {y.id for y in ast.walk(other) if isinstance(y, ast.Name) and id(y) not in inside}
+                        if not (bound & fn_names):
+                            test = _neg(elt) if kind == "all" else elt
+                            body = [ast.If(test=test, body=st.body, orelse=[])]
+                            for cond in reversed(gen.ifs):
+                                body = [ast.If(test=cond, body=body, orelse=[])]
+                            loop = ast.For(target=gen.target, iter=gen.iter, body=body, orelse=[], type_comment=None)
+                            for x in ast.walk(loop):
+                                if isinstance(x, (ast.stmt, ast.expr)) and not hasattr(x, "lineno"):
+                                    ast.copy_location(x, st)
+                            for x in ast.walk(gen.target):
+                                if isinstance(x, ast.Name):
+                                    x.ctx = ast.Store()
+                            block[i] = loop
+                            total += 1
+                            i += 1
+                            continue
                 if isinstance(st, ast.Return) and st.value is not None:
                     v = st.value
                     pre = []
@@ -1280,7 +1313,64 @@ def fold_inlining_temporaries(tree: ast.Module) -> int:
     return total
 
 
+# ---------------------------------------------------------------------------------------------- (14) neighbouring pairs
+def index_neighbour_pairs(tree: ast.Module) -> int:
+    """`for a, b in zip(X, X[1:]): BODY` is written `for i in range(len(X) - 1): BODY` with a ↦ X[i], b ↦ X[i + 1]
+    (X a plain name / attribute chain that BODY does not re-bind or change; a, b not re-bound in BODY)."""
+    total = 0
+    for loop in [n for n in ast.walk(tree) if isinstance(n, ast.For)]:
+        it, tg = loop.iter, loop.target
+        if not (isinstance(it, ast.Call) and isinstance(it.func, ast.Name) and it.func.id == "zip" and len(it.args) == 2 and not it.keywords
+                and isinstance(tg, ast.Tuple) and len(tg.elts) == 2 and all(isinstance(e, ast.Name) for e in tg.elts) and not loop.orelse):
+            continue
+        x, tail = it.args
+        if not (isinstance(tail, ast.Subscript) and isinstance(tail.slice, ast.Slice) and tail.slice.upper is None and tail.slice.step is None
+                and isinstance(tail.slice.lower, ast.Constant) and tail.slice.lower.value == 1 and ast.dump(tail.value) == ast.dump(x)):
+            continue
+        base = x
+        while isinstance(base, ast.Attribute):
+            base = base.value
+        if not isinstance(base, ast.Name):
+            continue
+        a, b = tg.elts[0].id, tg.elts[1].id
+        xs = ast.unparse(x)
+        bad = False
+        for st in loop.body:
+            for n in ast.walk(st):
+                if isinstance(n, ast.Name) and isinstance(n.ctx, (ast.Store, ast.Del)) and n.id in (a, b, base.id):
+                    bad = True
+                if isinstance(n, ast.Call) and isinstance(n.func, ast.Attribute) and ast.unparse(n.func.value) == xs:
+                    bad = True  # a method call on X may change it
+                if isinstance(n, (ast.Subscript, ast.Attribute)) and isinstance(n.ctx, (ast.Store, ast.Del)) and ast.unparse(n.value).startswith(xs):
+                    bad = True
+        if bad:
+            continue
+        total += 1
+        idx = f"i__z{total}"
+
+        class _S(ast.NodeTransformer):
+            def visit_Name(self, n):
+                if isinstance(n.ctx, ast.Load) and n.id in (a, b):
+                    i = ast.Name(id=idx, ctx=ast.Load())
+                    sl = i if n.id == a else ast.BinOp(left=i, op=ast.Add(), right=ast.Constant(value=1))
+                    import copy as _c
+
+                    return ast.copy_location(ast.Subscript(value=_c.deepcopy(x), slice=sl, ctx=ast.Load()), n)
+                return n
+
+        loop.body = [_S().visit(st) for st in loop.body]
+        import copy as _c
+
+        loop.target = ast.copy_location(ast.Name(id=idx, ctx=ast.Store()), tg)
+        loop.iter = ast.copy_location(ast.Call(func=ast.Name(id="range", ctx=ast.Load()), args=[ast.BinOp(
+            left=ast.Call(func=ast.Name(id="len", ctx=ast.Load()), args=[_c.deepcopy(x)], keywords=[]), op=ast.Sub(), right=ast.Constant(value=1))], keywords=[]), it)
+    if total:
+        ast.fix_missing_locations(tree)
+    return total
+
+
 def normalise(tree: ast.Module, keep=frozenset(), facts=None) -> Dict[str, int]:
+    kz = index_neighbour_pairs(tree)
     k8 = positional_package_arguments(tree, facts)
     k9 = propagate_stable_aliases(tree, facts)
     k9 += propagate_pure_temporaries(tree, facts)
@@ -1296,4 +1386,4 @@ def normalise(tree: ast.Module, keep=frozenset(), facts=None) -> Dict[str, int]:
     d = canonicalise_text_building(tree)
     q = expand_quantified_returns(tree)
     l = comprehend_append_loops(tree)
-    return {"append_loops": l, "helpers_inlined": a, "straight_line_helpers_inlined": a2, "keyword_arguments_positional": k8, "stable_aliases": k9, "sum_calls": k10, "condition_temporaries": b, "updates": c, "text_concatenations": d, "quantified_returns": q}
+    return {"append_loops": l, "helpers_inlined": a, "straight_line_helpers_inlined": a2, "keyword_arguments_positional": k8, "stable_aliases": k9, "sum_calls": k10, "condition_temporaries": b, "updates": c, "text_concatenations": d, "quantified_returns": q, "neighbour_pairs": kz}
